@@ -603,7 +603,11 @@ impl TransportManager {
         let address_record = AddressRecord::from_multiaddr(address)
             .ok_or(Error::AddressError(AddressError::PeerIdMissing))?;
 
-        if self.listen_addresses.read().contains(address_record.as_ref()) {
+        // Apply the same self-address rule as `add_known_address()` (same socket address, or a
+        // wildcard/loopback listener reached through loopback), not only the exact match.
+        if self.listen_addresses.read().contains(address_record.as_ref())
+            || self.transport_manager_handle.is_local_address(address_record.address())
+        {
             return Err(Error::TriedToDialSelf);
         }
 
